@@ -163,8 +163,9 @@ class Ctx:
         if key in self._overlay_cache:
             return self._overlay_cache[key]
         rep = {}
-        for f in sorted(glob.glob(os.path.join(VERIF, "harness", "verifkit", "*.go"))):
-            rep[os.path.join(REPO, "internal", "verifkit", os.path.basename(f))] = f
+        vkroot = os.path.join(VERIF, "harness", "verifkit")
+        for f in sorted(glob.glob(os.path.join(vkroot, "**", "*.go"), recursive=True)):
+            rep[os.path.join(REPO, "internal", "verifkit", os.path.relpath(f, vkroot))] = f
         ddir = os.path.join(VERIF, "harness", "drivers", pkg)
         names = files or [os.path.basename(p) for p in sorted(glob.glob(os.path.join(ddir, "*.go")))]
         for n in names:
@@ -347,6 +348,72 @@ class Ctx:
         if consumed != n:
             raise Inconclusive("trace spec consumed %d of %d events; see %s" % (consumed, n, res.log))
         return n - len(rej), rej
+
+    def validate_trace_sharded(self, module, cfg, trace_path, header_lines=1, shards=8, name="tlcs",
+                               timeout=900, heap="3g", group_start=None):
+        """like validate_trace but splits the events after the first `header_lines` lines into
+        `shards` contiguous parts (each prefixed with the header) validated by parallel TLC runs.
+        group_start(line_json_text) -> True marks lines where a part may begin (e.g. a corpus or
+        reset event); default: every line. Returns (accepted, rejected) with original line numbers."""
+        import concurrent.futures
+        lines = open(trace_path).read().splitlines()
+        head, body = lines[:header_lines], lines[header_lines:]
+        if not body:
+            raise Inconclusive("empty trace " + trace_path)
+        starts = [i for i, ln in enumerate(body) if group_start is None or group_start(ln)]
+        if not starts or starts[0] != 0:
+            starts = [0] + starts
+        shards = max(1, min(shards, len(starts)))
+        per = len(body) / float(shards)
+        cuts = [0]
+        for k in range(1, shards):
+            target = int(k * per)
+            cand = [x for x in starts if x >= target]
+            if cand and cand[0] > cuts[-1]:
+                cuts.append(cand[0])
+        cuts.append(len(body))
+        parts = [(cuts[i], cuts[i + 1]) for i in range(len(cuts) - 1) if cuts[i + 1] > cuts[i]]
+
+        def one(k):
+            a, b = parts[k]
+            d = self.tlc_dir("%s_%d" % (name, k))
+            with open(os.path.join(d, "trace.ndjson"), "w") as fh:
+                fh.write("\n".join(head + body[a:b]) + "\n")
+            meta = os.path.join(d, "meta")
+            cmd = ["timeout", str(timeout), "java", "-Xss256m", "-Xmx" + heap, "-XX:+UseParallelGC", "-cp", TLA_CP,
+                   "tlc2.TLC", "-workers", "1", "-metadir", meta, "-config", cfg, "-noGenerateSpecTE", "-deadlock", module]
+            t = time.time()
+            r = subprocess.run(cmd, cwd=d, stdout=subprocess.PIPE, stderr=subprocess.STDOUT, text=True, errors="replace")
+            shutil.rmtree(meta, ignore_errors=True)
+            res = TLCResult(r.returncode, r.stdout, time.time() - t)
+            with open(os.path.join(d, "tlc.log"), "w") as fh:
+                fh.write(r.stdout)
+            res.log = os.path.join(d, "tlc.log")
+            return k, res
+
+        t0 = time.time()
+        with concurrent.futures.ThreadPoolExecutor(max_workers=min(len(parts), NCPU)) as ex:
+            results = list(ex.map(one, range(len(parts))))
+        rejected = []
+        for k, res in results:
+            a, b = parts[k]
+            n = len(head) + (b - a)
+            if res.rc == 124:
+                raise Inconclusive("TLC timeout validating part %d of %s" % (k, trace_path))
+            if "StackOverflowError" in res.out or "OutOfMemoryError" in res.out:
+                raise Inconclusive("TLC resource failure validating trace part %d; see %s" % (k, res.log))
+            rej = res.printed("REJECTED")
+            acc = res.printed_raw("ACCEPTED")
+            if not acc or int(acc[-1]) != n:
+                raise Inconclusive("trace spec consumed %s of %d events in part %d; see %s" % (acc[-1] if acc else "?", n, k, res.log))
+            for r in rej:
+                if isinstance(r, dict) and "line" in r and r["line"] > len(head):
+                    r["line"] = r["line"] - len(head) + a + len(head)
+                rejected.append(r)
+        self.tlc_runs.append({"module": module, "cfg": cfg, "mode": "trace-validation", "parts": len(parts),
+                              "events": len(lines), "wall_s": round(time.time() - t0, 1)})
+        self.log("tlc %s: %d events in %d parallel parts, %d rejected, %.1fs" % (module, len(lines), len(parts), len(rejected), time.time() - t0))
+        return len(lines) - len({r["line"] for r in rejected if isinstance(r, dict) and "line" in r}), rejected
 
     # ---------------------------------------------------------------- verdicts
     def violation(self, signature, detail, replay=None):
